@@ -126,20 +126,24 @@ func StringValueFromCodeField(message proto.Message) (string, bool) {
 		field := reflect.Descriptor().Fields().ByName(protoreflect.Name("value"))
 		if field.Kind() == protoreflect.EnumKind {
 			enum := reflect.Get(field).Enum()
-			value := field.Enum().Values().ByNumber(enum)
-			// Codes whose spelling does not survive the enum naming rules
-			// ("POST", "<", "1.4.0", "Patient") carry the original code.
-			if orig, ok := proto.GetExtension(value.Options(), apb.E_FhirOriginalCode).(string); ok && orig != "" {
-				return orig, true
-			}
-			code := string(value.Name())
-			return strings.ReplaceAll(strings.ToLower(code), "_", "-"), true
+			return CodeOfEnumValue(field.Enum().Values().ByNumber(enum)), true
 		}
 		if field.Kind() == protoreflect.StringKind {
 			return reflect.Get(field).String(), true
 		}
 	}
 	return "", false
+}
+
+// CodeOfEnumValue returns the FHIR code that an enum value of a bound code
+// element stands for. Codes whose spelling does not survive the enum naming
+// rules ("POST", "<", "1.4.0", "Patient") carry the original code as an
+// annotation; all others are the lower-cased name with '-' for '_'.
+func CodeOfEnumValue(value protoreflect.EnumValueDescriptor) string {
+	if orig, ok := proto.GetExtension(value.Options(), apb.E_FhirOriginalCode).(string); ok && orig != "" {
+		return orig
+	}
+	return strings.ReplaceAll(strings.ToLower(string(value.Name())), "_", "-")
 }
 
 // Field is a struct containing both the Value and FieldDescriptor for a proto field.
